@@ -21,7 +21,7 @@ def call_alternatives(call, max_tasks=MAX_TASKS):
             for p in itertools.permutations(sub):
                 perms.append(tuple(p) + tuple(rest))
         capped = True
-    default_mode = "eager" if kind == "map" else "lazy"
+    default_mode = "eager" if kind in ("map", "map_async") else "lazy"
     for p in perms:
         for m in modes:
             if tuple(p) == tuple(range(n)) and m == default_mode:
